@@ -95,6 +95,9 @@ def _build(rng):
     if rng.random() < 0.5 and entries:
         # make sure the last entry of the file is used (the file may end without a line terminator)
         strings[0] = strings[0] + entries[-1][0]
+    if rng.random() < 0.06:
+        # strings longer than 256 / 512 source characters (entries, escapes and unknown characters across those offsets)
+        strings[3] = "".join(_string(rng, entries, escapes=esc) for _ in range(rng.choice([40, 60, 120])))
     if rng.random() < 0.2:
         # an apostrophe entry: in a string it is written \' (the backslash itself has no entry and is skipped), in the
         # middle and as the very last character of the text
